@@ -29,6 +29,12 @@ def run_unit(unit, repo='/repo', mode='partial', use_cache=True, outdir=None, ex
     last = None
     for attempt in range(8):
         r = _run_once(unit, repo, mode, use_cache, outdir, extra_args, rlimit, set(stub), t0)
+        if r.get('resource_limit') and not rlimit:
+            # a failing (or merely slow) query ran out of the default resource budget: decide it with a four times larger one before
+            # calling the unit undecided (rlimit is a deterministic z3 resource count, not wall time)
+            r2 = _run_once(unit, repo, mode, use_cache, outdir, extra_args, 40, set(stub), t0)
+            if r2.get('status') == 'ok' or not r2.get('resource_limit'):
+                r = r2
         last = r
         if r['status'] == 'ok' or not r.get('frontend_owners'):
             break
@@ -52,7 +58,7 @@ def _run_once(unit, repo, mode, use_cache, outdir, extra_args, rlimit, stub, t0)
     except asm.AssembleError as e:
         return {'status': 'undecided', 'reason': 'assemble: %s' % e, 'unit': unit, 'mode': mode, 'wall_s': time.time() - t0}
     text = open(meta['file']).read()
-    key = hashlib.sha256((text + verus_version() + ' '.join(VERUS_ARGS + (extra_args or []))).encode()).hexdigest()
+    key = hashlib.sha256((text + verus_version() + ' '.join(VERUS_ARGS + (extra_args or [])) + ('rlimit=%s' % rlimit if rlimit else '')).encode()).hexdigest()
     os.makedirs(CACHE, exist_ok=True)
     cpath = os.path.join(CACHE, 'verus-%s-%s-%s.json' % (unit, mode, key[:24]))
     if use_cache and os.path.isfile(cpath):
